@@ -98,8 +98,9 @@ type seededReader struct {
 	blocked bool
 	// perTask returns the calling task's own stream in concurrent mode (so
 	// that a client's randomness does not depend on the interleaving)
-	perTask func() *Rng
-	mu      sync.Mutex
+	perTask  func() *Rng
+	zeroTail int // Config.ZeroTailRand
+	mu       sync.Mutex
 }
 
 var errRand = errors.New("sim: injected entropy failure")
@@ -128,6 +129,12 @@ func (s *seededReader) Read(p []byte) (int, error) {
 	for i := 0; i < len(p); i += 8 {
 		binary.LittleEndian.PutUint64(b[:], rng.U64())
 		copy(p[i:], b[:])
+	}
+	if s.zeroTail > 0 && len(p) == 64 {
+		// a token whose last bytes happen to be zero
+		for i := len(p) - s.zeroTail; i < len(p); i++ {
+			p[i] = 0
+		}
 	}
 	return len(p), nil
 }
